@@ -96,15 +96,19 @@ theorem applyWEvs_instQ (Q : FdtAbs → Prop) (ans : FdtAns) (hans : ∀ fdt u, 
     cases e with
     | complete =>
       simp only [FdtRecv.applyWEv]
-      cases hans' : ans with
-      | err => intro inst hi; exact h inst hi
-      | ok fdt u =>
-        intro inst hi
-        simp only [Option.some.injEq] at hi
-        rw [← hi]; exact hans fdt u hans'
+      split
+      · exact h
+      · cases hans' : ans with
+        | err => intro inst hi; exact h inst hi
+        | ok fdt u =>
+          intro inst hi
+          simp only [Option.some.injEq] at hi
+          rw [← hi]; exact hans fdt u hans'
     | error => intro inst hi; exact h inst hi
     | interrupted => intro inst hi; exact h inst hi
-    | write a b => intro inst hi; exact h inst hi
+    | write a b =>
+      simp only [FdtRecv.applyWEv]
+      split <;> (intro inst hi; exact h inst hi)
     | new c => intro inst hi; exact h inst hi
     | opened => intro inst hi; exact h inst hi
 
